@@ -77,8 +77,24 @@ declarations:
     - decl: double gammathree(double *v +rank(1), int n +implied(size(v)))
     - decl: bool deltafour(bool flag)
 """
+# a method whose wrapper is derived from the declaration (return_this makes a void clone): the clone follows the flags
+CHAIN = """\
+library: Sel
+cxx_header: sel.hpp
+declarations:
+- decl: class Builder
+  declarations:
+  - decl: Builder()
+  - decl: Builder * setSize(int n)
+    return_this: True
+  - decl: Builder & setName(const std::string &name)
+    return_this: True
+  - decl: int size() const
+- decl: void apply(int n = 1, int m = 2)
+"""
 DESCS = {
     "functions": FUNCS,
+    "chain": CHAIN,
     "overloads": OVERLOADS,
     "classes": libs.SMALL_CXX,
     "structs": libs.SMALL_C,
@@ -231,12 +247,18 @@ def run(ctx):
     # ---- (b) per-declaration overrides
     names = ["alphaone", "betatwo", "gammathree"]
     for lang in LANGS:
-        for libdefault, nested in ((True, False), (False, False), (False, True), (True, True), (False, 2), (True, 2)):
+        for libdefault, nested in ((True, False), (False, False), (False, True), (True, True), (False, 2), (True, 2), (True, "flat"), (False, "flat"), (True, "flat2")):
             allflags = list(itertools.product(["inherit", True, False], repeat=3))
             if nested and quick:
                 allflags = allflags[::3]
             for flags in allflags:
+                flat = nested in ("flat", "flat2")
+                if flat:
+                    # the namespace folded into the parent Fortran module by an option on the namespace itself
+                    nested = 2 if nested == "flat2" else True
                 d = copy.deepcopy(yaml.safe_load(FUNCS_NS2 if nested == 2 else FUNCS_NS if nested else FUNCS))
+                if flat:
+                    (d["declarations"][0]["declarations"][0] if nested == 2 else d["declarations"][0]).setdefault("options", {})["F_flatten_namespace"] = True
                 opts = d.setdefault("options", {})
                 for l2 in LANGS:
                     opts["wrap_" + l2] = True
@@ -249,7 +271,7 @@ def run(ctx):
                 for fdecl, fl in zip(fl_decls, flags):
                     if fl != "inherit":
                         fdecl.setdefault("options", {})["wrap_" + lang] = fl
-                add(("decl", lang, libdefault, flags), d)
+                add(("decl", lang, libdefault, flags, flat), d)
     # ---- (c) directory assignments
     dbase = yaml.safe_load(libs.SMALL_CXX)
     keys = ["out", "cf", "py", "lua", "yaml"]
@@ -317,16 +339,18 @@ def run(ctx):
             else:
                 cf_by[key] = (c, cf)
         elif tag[0] == "decl":
-            _, lang, libdefault, flags = tag
+            _, lang, libdefault, flags, flat = tag
+            # in a flattened namespace the Fortran name carries the namespace
+            fname = (lambda n: "nsx_" + n) if (flat and lang == "fortran") else (lambda n: n)
             for nm, fl in zip(names, flags):
                 on = libdefault if fl == "inherit" else fl
-                seen = appears(nm, lang, r["content"])
+                seen = appears(fname(nm), lang, r["content"])
                 if on != seen:
                     ctx.violation("decl-flag %s %s" % (lang, "missing" if on else "present"),
                                   "wrap_%s for %s is %s (library default %s, flags %s) but the function %s in the %s output" % (
                                       lang, nm, on, libdefault, dict(zip(names, flags)), "appears" if seen else "does not appear", lang), {"tag": tag})
             # the untouched fourth function follows the library default
-            seen = appears("deltafour", lang, r["content"])
+            seen = appears(fname("deltafour"), lang, r["content"])
             if seen != libdefault:
                 ctx.violation("decl-flag sibling %s" % lang, "sibling deltafour (no override, library default %s) %s in the %s output; flags %s" % (
                     libdefault, "appears" if seen else "does not appear", lang, dict(zip(names, flags))), {"tag": tag})
